@@ -3,6 +3,7 @@ package hx
 import (
 	"fmt"
 	"os"
+	"os/exec"
 	"path/filepath"
 	"strconv"
 )
@@ -52,6 +53,49 @@ func LoadEnv(id string) *Env {
 	e.Replay = os.Getenv("VERIF_REPLAY")
 	e.FoundDir = getenv("VERIF_FOUND", filepath.Join(e.VerifDir, "found", id))
 	return e
+}
+
+// shard-private Go build cache for everything compiled inside scratch modules
+var (
+	cacheSeed  string
+	cacheDir   string
+	cacheCalls int
+)
+
+// InitScratchCache gives the process a private GOCACHE (inherited by every child: the convergen binary's
+// `go list`, `go build` and `go test` of scratch modules), populated with hard links to the seed that
+// bin/check built (compiled standard library). Without a seed the shared cache is used.
+func (e *Env) InitScratchCache() {
+	cacheSeed = os.Getenv("VERIF_GOCACHE_SEED")
+	if cacheSeed == "" || !Exists(filepath.Join(cacheSeed, ".complete")) {
+		return
+	}
+	cacheDir = filepath.Join(e.Work, "gocache")
+	resetScratchCache()
+}
+
+func resetScratchCache() {
+	if cacheDir == "" {
+		return
+	}
+	_ = os.RemoveAll(cacheDir)
+	// hard-link copy: instant and takes no space
+	if out, err := exec.Command("cp", "-al", cacheSeed, cacheDir).CombinedOutput(); err != nil {
+		_ = os.RemoveAll(cacheDir)
+		if out2, err2 := exec.Command("cp", "-a", cacheSeed, cacheDir).CombinedOutput(); err2 != nil {
+			panic(fmt.Sprintf("scratch cache: %v %s %v %s", err, out, err2, out2))
+		}
+	}
+	os.Setenv("GOCACHE", cacheDir)
+}
+
+// ScratchCacheTick is called once per compiled scratch module; every few hundred modules the private
+// cache (which holds nothing reusable apart from the seed) is thrown away and linked afresh.
+func ScratchCacheTick() {
+	cacheCalls++
+	if cacheCalls%300 == 0 {
+		resetScratchCache()
+	}
 }
 
 // Thorough reports whether the thorough tier was requested.
